@@ -1,31 +1,90 @@
 (** The executable consent / deposit checkers that the correspondence run evaluates on the
-    implementation's observations decide exactly the propositions of the theorems (C09). *)
+    implementation's observations hold of the model (C09): fed with the model's own grants, records
+    and new holder, [consent_b] accepts every holder change the model can make, and [deposit_b]
+    decides [deposit_ok].  A "prop:value owner changed without the owner's consent" failure on the
+    real code is therefore a behaviour the model cannot show. *)
 From Coq Require Import ZArith NArith List Bool.
-From PV Require Import Metadata.ValueOwner Proofs.ValueOwnerProofs Corr.C09.
+From PV Require Import Metadata.ValueOwner Proofs.ValueOwnerProofs Proofs.ValueOwnerProofs2
+  Proofs.ValueOwnerProofs3 Proofs.ValueOwnerProofs4 Proofs.ValueOwnerAuthz Corr.C09.
 Import ListNotations.
-
-Lemma consent_b_spec s o h : consent_b s o h = true <-> consent s o h.
-Proof.
-  unfold consent_b, consent. rewrite !orb_true_iff, mem_In. split.
-  - intros [[H|H]|H].
-    + left. exact H.
-    + right. left. destruct (kind_of o) as [k|]; [|discriminate].
-      apply existsb_exists in H. destruct H as (g & Hg & Hgr). exists k, g. auto.
-    + right. right. destruct (marker_of s h) as [m|]; [|discriminate].
-      apply any_in_spec in H. destruct H as (g & Hg & Hw). exists m, g. auto.
-  - intros [H|[(k & g & Hk & Hg & Hgr)|(m & g & Hm & Hg & Hw)]].
-    + left. left. exact H.
-    + left. right. rewrite Hk. apply existsb_exists. exists g. auto.
-    + right. rewrite Hm. apply any_in_spec. exists g. auto.
-Qed.
 
 Lemma deposit_b_spec s o n : deposit_b s o n = true <-> deposit_ok s o n.
 Proof.
   unfold deposit_b, deposit_ok. destruct (marker_of s n) as [m|].
   - destruct (mk_restricted m) eqn:Er.
-    + rewrite any_in_spec. split.
+    + rewrite orb_true_iff, andb_true_iff, any_in_spec, mem_In. split.
       * intros H m' [= <-] _. exact H.
       * intros H. apply (H m eq_refl Er).
     + split; [|reflexivity]. intros _ m' [= <-] Hr. congruence.
   - split; [|reflexivity]. intros _ m' Hm. discriminate.
+Qed.
+
+Lemma deposit_b_model s o d n :
+  Inv s -> holder (run_op s o) d = Some n -> holder s d <> Some n -> deposit_b s o n = true.
+Proof. intros HI Hn Hch. apply deposit_b_spec. eapply run_op_deposit; eassumption. Qed.
+
+Lemma consent_b_model s o d h :
+  Inv s -> holder s d = Some h -> holder (run_op s o) d <> Some h ->
+  consent_b s (grants s) (qrecs s) o d h (holder (run_op s o) d) = true.
+Proof.
+  intros HI Hh Hch. unfold consent_b.
+  destruct (marker_of s h) as [m|] eqn:Em.
+  - destruct (run_op_marker_out s o d h m HI Hh Em Hch) as (Hk & g & Hg & Hw).
+    apply andb_true_intro. split; [apply any_in_spec; exists g; auto|].
+    destruct o; cbn in Hk |- *; try reflexivity. congruence.
+  - destruct HI as (HB & HT & HQ).
+    pose proof (run_op_trans s o (conj HB (conj HT HQ))) as Htr.
+    pose proof (holder_inv _ _ _ HB Hh) as Ht.
+    assert (Hmeta : forall sg k, signers_of o = sg -> kind_of o = Some k ->
+              (In h (effective_signers s sg) \/ is_marker s h = true \/
+               exists g, In g (effective_signers s sg) /\ has_grant s h g k = true) ->
+              mem h (signers_of o) ||
+              match kind_of o with Some k0 => existsb (fun g => usable (now s) (grants s) h g k0) (signers_of o) | None => false end = true).
+    { intros sg k Hsg Hk Hc. destruct Hc as [H|[H|(g & Hg & Hgr)]].
+      - apply orb_true_intro. left. apply mem_In. rewrite Hsg. eapply effective_signers_incl. exact H.
+      - unfold is_marker in H. rewrite Em in H. discriminate.
+      - apply orb_true_intro. right. rewrite Hk. apply existsb_exists.
+        exists g. split; [rewrite Hsg; eapply effective_signers_incl; exact Hg|exact Hgr]. }
+    destruct (Htr d) as [(A & _)|[(f & t & A & B & C & D & E)|[(t & A & _)|(f & A & B & C & D & E & Hkd)]]].
+    + exfalso. apply Hch. rewrite <- Hh. apply holder_same. exact A.
+    + rewrite Ht in A. injection A as <-.
+      destruct E as [sg k to Hsg Hk Hne Hr Hc _|to amt -> _ _|outs to ds -> _ _ _ _|froms perm r -> -> Hin Hacc Hd Hr].
+      * apply orb_true_intro. left. eapply (Hmeta sg k); eauto.
+      * apply orb_true_intro. left. apply orb_true_intro. left. cbn. rewrite N.eqb_refl. reflexivity.
+      * apply orb_true_intro. left. apply orb_true_intro. left. cbn. rewrite N.eqb_refl. reflexivity.
+      * apply orb_true_intro. right. rewrite N.eqb_refl. cbn [andb].
+        rewrite (holder_single _ _ _ B). cbn [opt_is]. rewrite N.eqb_refl. cbn [andb]. apply existsb_exists.
+        exists r. split; [exact Hin|]. rewrite Hacc. cbn [andb]. apply mem_In. exact Hd.
+    + rewrite Ht in A. discriminate.
+    + rewrite Ht in A. injection A as <-.
+      destruct E as [sg k to Hsg Hk Hne Hr Hc _|to amt -> _ _|outs to ds -> _ _ _ _|froms perm r -> _ _ _ _ _];
+        try discriminate.
+      apply orb_true_intro. left. eapply (Hmeta sg k); eauto.
+Qed.
+
+Lemma grant_eqb_refl g : grant_eqb g g = true.
+Proof.
+  unfold grant_eqb, g_is. rewrite !N.eqb_refl, kind_eqb_refl. cbn [andb].
+  destruct (g_exp g), (g_left g); cbn; rewrite ?Z.eqb_refl; reflexivity.
+Qed.
+
+Lemma opt_grant_eqb_refl o : opt_grant_eqb o o = true.
+Proof. destruct o as [g|]; [apply grant_eqb_refl|reflexivity]. Qed.
+
+(** [grant_used_b], fed with the model's grants before and after, accepts every holder change of
+    the model (from a store with one authorization per key). *)
+Lemma grant_used_b_model s o d h :
+  Inv s -> KeyUniq (grants s) -> holder s d = Some h -> holder (run_op s o) d <> Some h ->
+  grant_used_b s (grants s) (grants (run_op s o)) o h = true.
+Proof.
+  intros HI HU Hh Hch. unfold grant_used_b.
+  destruct (kind_of o) as [k|] eqn:Ek; [|reflexivity].
+  destruct (marker_of s h) as [m|] eqn:Em; [reflexivity|].
+  destruct (mem h (signers_of o)) eqn:Es; [reflexivity|]. cbn [orb].
+  assert (Hna : is_accept o = false) by (destruct o; cbn in Ek |- *; try reflexivity; discriminate).
+  destruct (run_op_grant_use s o d h HI HU Hh Hch) as (k' & g & gr & Hk & Hg & Hl & Hlive & Hafter);
+    [apply mem_false; exact Es|exact Em|exact Hna|].
+  rewrite Ek in Hk. injection Hk as <-.
+  apply existsb_exists. exists g. split; [exact Hg|]. rewrite Hl, Hlive, Hafter. cbn [andb].
+  apply opt_grant_eqb_refl.
 Qed.
